@@ -16,6 +16,13 @@ def parseCoinTok (t : String) : Option Coin :=
     | _, _ => none
   | _ => none
 
+/-- a field of a flat message: `b:<hex>` bytes as they are, `i:<int>` an Int as its decimal text -/
+def parseFieldTok (t : String) : Option Bytes :=
+  match t.splitOn ":" with
+  | ["b", h] => unhex h
+  | ["i", a] => a.toInt?.map intText
+  | _ => none
+
 def stepCodec (p : CodecProg) (toks : List String) : CodecProg × String :=
   match toks with
   | ["reg", "send", h] => match unhex h with
@@ -52,6 +59,9 @@ def stepCodec (p : CodecProg) (toks : List String) : CodecProg × String :=
   | ["msgsend", a, b, amt] => (p, match unhex a, unhex b, amt.toInt? with
     | some a, some b, some amt => hx (encodeMsgSend p.sendPrefix { src := a, dst := b, amount := amt })
     | _, _, _ => "bad-op")
+  | "amsg" :: _ :: pre :: toks => (p, match unhex pre, toks.mapM parseFieldTok with
+    | some pre, some fs => "ok " ++ hx (encodeFlatMsg pre fs)
+    | _, _ => "bad-op")
   | ["pkey", pw, a] => (p, match pw.toNat?, unhex a with
     | some pw, some a => hx (powerKey Posmint.Generated.stakedValidatorsKey pw a)
     | _, _ => "bad-op")
